@@ -222,8 +222,19 @@ def case_batch(**p):
     case.meta.update(ops=tr3.ops_seen, stubs=sym.ctx().stubs)
     if combo is None:
       wit['x'] = x
+    def rp(m, x=x, vv=vv):
+      vvn = {k: core.model_np(m, v) for k, v in vv.items()}
+      xn = core.model_np(m, x)
+      if kind == 'categorical':
+        xn = xn.astype(np.int64)
+      full = np.asarray(tr3.tf_run(xn, var_values=vvn)[0])
+      worst = 0.0
+      for i in range(B):
+        one = np.asarray(tr1.tf_run(xn[i:i + 1], var_values=vvn)[0])
+        worst = max(worst, float(np.max(np.abs(full[i] - one[0]))))
+      return dict(reproduced=bool(worst > 1e-4 * max(1.0, float(np.max(np.abs(full))))), detail=dict(max_abs_diff=worst))
     case.identity('row-independent-of-batch[%d]' % ci, pairs, witness=wit, timeout=p.get('timeout', 60),
-                  sig=dict(query='batch', layer=kind), replay=None, required=p.get('required', True))
+                  sig=dict(query='batch', layer=kind), inline_replay=rp, required=p.get('required', True))
   return case
 
 
@@ -253,8 +264,16 @@ def _case_batch_fn(case, p, B):
     for a, b_ in zip(np.asarray(o3[i]).reshape(-1), np.asarray(o1[0]).reshape(-1)):
       pairs.append((a, b_))
   case.meta.update(validation_points=done, validation_mismatch=mism, ops=tr3.ops_seen, stubs=sym.ctx().stubs)
+  def rp(m):
+    an = [core.model_np(m, a) for a in args]
+    full = np.asarray(tr3.tf_run(*an)[0])
+    worst = 0.0
+    for i in range(B):
+      one = np.asarray(tr1.tf_run(*[a[i:i + 1] for a in an])[0])
+      worst = max(worst, float(np.max(np.abs(full[i] - one[0]))))
+    return dict(reproduced=bool(worst > 1e-4 * max(1.0, float(np.max(np.abs(full))))), detail=dict(max_abs_diff=worst))
   case.identity('row-independent-of-batch', pairs, witness={'a%d' % i: a for i, a in enumerate(args)}, timeout=p.get('timeout', 60),
-                sig=dict(query='batch', layer=p['layer']), replay=None)
+                sig=dict(query='batch', layer=p['layer']), inline_replay=rp)
   return case
 
 
@@ -284,8 +303,17 @@ def _case_batch_premade(case, p, B):
     (o1,) = tr1.sym_run(xa[i:i + 1], xb[i:i + 1], var_values=vv)
     pairs.append((o3[i, 0], o1[0, 0]))
   case.meta.update(validation_points=done, validation_mismatch=mism, ops=tr3.ops_seen)
+  def rp(m):
+    vvn = {k: core.model_np(m, v) for k, v in vv.items()}
+    a_, b_ = core.model_np(m, xa), core.model_np(m, xb)
+    full = np.asarray(tr3.tf_run(a_, b_, var_values=vvn)[0])
+    worst = 0.0
+    for i in range(B):
+      one = np.asarray(tr1.tf_run(a_[i:i + 1], b_[i:i + 1], var_values=vvn)[0])
+      worst = max(worst, float(np.max(np.abs(full[i] - one[0]))))
+    return dict(reproduced=bool(worst > 1e-4 * max(1.0, float(np.max(np.abs(full))))), detail=dict(max_abs_diff=worst))
   case.identity('row-independent-of-batch', pairs, witness=dict(wit, xa=xa, xb=xb), timeout=120, sig=dict(query='batch', layer='premade'),
-                replay=None)
+                inline_replay=rp)
   return case
 
 
@@ -309,6 +337,7 @@ def case_unit_output(**p):
   (om,) = trm.sym_run(x, var_values=vv)
   om = np.asarray(om, dtype=object).reshape(-1)
   pairs = []
+  singles_in = []
   for u in range(units):
     vv1 = {}
     for vm, v1 in zip(Lm.weights, L1.weights):
@@ -334,11 +363,22 @@ def case_unit_output(**p):
     else:
       x1 = x[:, u, :]
     (o1,) = tr1.sym_run(x1, var_values=vv1)
+    singles_in.append((x1, vv1))
     pairs.append((om[u], np.asarray(o1, dtype=object).reshape(-1)[0]))
   case.meta.update(validation_points=done, validation_mismatch=mism, ops=trm.ops_seen, stubs=sym.ctx().stubs)
   case.identity('unit-output-depends-only-on-its-own-parameters', pairs, witness=wit, timeout=p.get('timeout', 120),
-                sig=dict(query='unit-output', layer=kind), replay=None, required=p.get('required', True))
+                sig=dict(query='unit-output', layer=kind), required=p.get('required', True),
+                inline_replay=lambda m: _unit_replay(m, trm, tr1, x, vv, singles_in))
   return case
+
+
+def _unit_replay(m, trm, tr1, x, vv, singles_in):
+  full = np.asarray(trm.tf_run(core.model_np(m, x), var_values={k: core.model_np(m, v) for k, v in vv.items()})[0]).reshape(-1)
+  worst = 0.0
+  for u, (x1, vv1) in enumerate(singles_in):
+    one = np.asarray(tr1.tf_run(core.model_np(m, x1), var_values={k: core.model_np(m, v) for k, v in vv1.items()})[0]).reshape(-1)
+    worst = max(worst, abs(float(full[u]) - float(one[0])))
+  return dict(reproduced=bool(worst > 1e-4 * max(1.0, float(np.max(np.abs(full))))), detail=dict(max_abs_diff=worst))
 
 
 def replay(r):
